@@ -24,6 +24,11 @@ type swrite struct {
 	add, del []int // as reported to the reference subscription
 	state    []int // true contents after the update (sorted)
 	refEnter uint64
+	// what the read-only view oracle of the utility harness needs to know about the call: elements the call both adds
+	// and deletes (present for a moment even if absent before and after), and whether it is a Replace (which clears
+	// the set before it fills it again: retained elements are absent for a moment)
+	transient []int
+	replace   bool
 }
 
 type scb struct {
@@ -127,9 +132,11 @@ func (w *sworld) unsubscribe(sub *ssub) {
 	w.s.Logf("unsubscribed %s", sub.name)
 }
 
-func (w *sworld) write(desc string, f func()) {
+func (w *sworld) write(desc string, f func()) { w.writeX(desc, nil, false, f) }
+
+func (w *sworld) writeX(desc string, transient []int, replace bool, f func()) {
 	me := simrt.Current()
-	wr := &swrite{task: me, desc: desc, ord: -1}
+	wr := &swrite{task: me, desc: desc, ord: -1, transient: transient, replace: replace}
 	w.writes = append(w.writes, wr)
 	w.cur[me] = wr
 	wr.inv = w.s.Tick()
@@ -358,16 +365,8 @@ func (w *sworld) finalChecks(final []int) {
 	}
 }
 
-func setBody(s *simrt.Sim) {
-	noReplace := simrt.ConfigHas("noreplace")
-	init := []int{}
-	if s.Choose(2) == 1 {
-		init = subset(s, setUniverse, false)
-	}
-	w := &sworld{s: s, set: rx.NewSet(init...), init: sortedInts(init), cur: map[*simrt.Task]*swrite{}, r: newReach(s)}
-	s.Logf("config init=%s noreplace=%v", fmtInts(init), noReplace)
-	ref := &ssub{name: "ref", kind: "OnUpdate", ref: true}
-	w.subscribe(ref)
+// spawnSetWriters draws the scripts of 1..3 writer tasks and spawns them.
+func spawnSetWriters(s *simrt.Sim, w *sworld, noReplace bool) {
 	set := w.set
 	nwriters := 1 + s.Choose(3)
 	for i := 0; i < nwriters; i++ {
@@ -412,23 +411,37 @@ func setBody(s *simrt.Sim) {
 					w.write("DeleteAll"+fmtInts(o.a), func() { set.DeleteAll(ds.NewSet(o.a...)) })
 				case 4:
 					w.r.hit("mutation-adds-and-deletes-same-element", intersects(o.a, o.b))
-					w.write("Apply(+"+fmtInts(o.a)+" -"+fmtInts(o.b)+")", func() {
+					w.writeX("Apply(+"+fmtInts(o.a)+" -"+fmtInts(o.b)+")", both(o.a, o.b), false, func() {
 						set.Apply(ds.NewSetMutations(o.a...).WithDeletedElements(ds.NewSet(o.b...)))
 					})
 				case 5:
 					w.r.hit("mutation-adds-and-deletes-same-element", intersects(o.a, o.b))
-					w.write("Compute(+"+fmtInts(o.a)+" -"+fmtInts(o.b)+")", func() {
+					w.writeX("Compute(+"+fmtInts(o.a)+" -"+fmtInts(o.b)+")", both(o.a, o.b), false, func() {
 						set.Compute(func(ds.ReadableSet[int]) ds.SetMutations[int] {
 							simrt.Yield()
 							return ds.NewSetMutations(o.a...).WithDeletedElements(ds.NewSet(o.b...))
 						})
 					})
 				case 6:
-					w.write("Replace"+fmtInts(o.a), func() { set.Replace(ds.NewSet(o.a...)) })
+					w.writeX("Replace"+fmtInts(o.a), nil, true, func() { set.Replace(ds.NewSet(o.a...)) })
 				}
 			}
 		})
 	}
+}
+
+func setBody(s *simrt.Sim) {
+	noReplace := simrt.ConfigHas("noreplace")
+	init := []int{}
+	if s.Choose(2) == 1 {
+		init = subset(s, setUniverse, false)
+	}
+	w := &sworld{s: s, set: rx.NewSet(init...), init: sortedInts(init), cur: map[*simrt.Task]*swrite{}, r: newReach(s)}
+	s.Logf("config init=%s noreplace=%v", fmtInts(init), noReplace)
+	ref := &ssub{name: "ref", kind: "OnUpdate", ref: true}
+	w.subscribe(ref)
+	set := w.set
+	spawnSetWriters(s, w, noReplace)
 	nsubs := 1 + s.Choose(3)
 	for i := 0; i < nsubs; i++ {
 		script := drawSubscriptions(s, 2)
